@@ -5149,7 +5149,7 @@ class State:
                 self.street_return_index = self.street_index + 1
                 self.street_return_count = self.runout_count - 1
 
-        if sum(self.statuses) == 1:
+        if sum(self.statuses) <= 1:
             self._begin_chips_pushing()
         elif self.all_in_status and self.street is not self.streets[-1]:
             self._begin_dealing()
